@@ -159,7 +159,8 @@ where
     // course means we have off-by-1 errors, so the correct way is to trim
     // leading zeros, and then calculate the exponent as the offset.
     let digits = &buffer[integer_cursor..fraction_cursor];
-    let zero_count = ltrim_char_count(digits, b'0');
+    // Always keep at least one digit: for zero, all the digits are zeros.
+    let zero_count = ltrim_char_count(digits, b'0').min(digits.len() - 1);
     let sci_exp: i32 = initial_cursor as i32 - integer_cursor as i32 - zero_count as i32 - 1;
     write_float!(
         float,
